@@ -32,7 +32,15 @@ class Obj:
 
 class ModelObject:
     """Hook for contract-supplied models of external objects (netCDF variables...).
-    Subclasses may define pv_getattr/pv_getitem/pv_setitem/pv_call/pv_contains/pv_len/pv_iter."""
+    Subclasses may define pv_getattr/pv_getitem/pv_setitem/pv_call/pv_contains/pv_len/pv_iter/pv_binop."""
+
+
+class GeneratorRun:
+    """Result of a generator function whose `while True` loop was verified by induction: the values yielded in the
+    generic iteration ``k`` (a symbolic integer >= 0)."""
+
+    def __init__(self, k, yields):
+        self.k, self.yields = k, yields
 
 
 @dataclass
@@ -406,7 +414,16 @@ class Interp:
                 return self.module_lookup(self.repo.module(dotted), nm)
             return External(val)
         if tag == "expr":
-            return self.eval(val, {}, mod)
+            # a module-level object is ONE object for the whole call (mutations persist, and are reported by the
+            # frame check of the postcondition: a function must not change module-level state)
+            ms = self.cx.ghost.setdefault("module_state", {})
+            key = (mod.dotted, name)
+            if key in ms:
+                return ms[key][0]
+            v = self.eval(val, {}, mod)
+            if isinstance(v, (dict, list, set)):
+                ms[key] = (v, _snapshot(v))
+            return v
         raise Unsupported(f"global {name}")
 
     def builtin(self, name):
@@ -462,6 +479,8 @@ class Interp:
             self.do_raise(st, env, mod)
         elif isinstance(st, ast.For):
             self.exec_for(st, env, mod)
+        elif isinstance(st, ast.While):
+            self.exec_while(st, env, mod)
         elif isinstance(st, ast.Pass):
             return
         elif isinstance(st, ast.Try):
@@ -488,6 +507,45 @@ class Interp:
             cx.oblige("assert", V.to_z3(c) if not isinstance(c, bool) else c, kind="assert")
         else:
             raise Unsupported(f"statement {type(st).__name__} at {cx.loc}")
+
+    def exec_while(self, st, env, mod):
+        """`while True:` loop of a generator, verified by induction against the contract's loop invariant:
+        (1) the invariant holds on entry (iteration 0); (2) from an ARBITRARY iteration k >= 0 whose state satisfies
+        the invariant (variables assigned in the body are havocked), one execution of the body re-establishes it for
+        k + 1. The values yielded in iteration k are handed to the postcondition (GeneratorRun), which therefore speaks
+        about every iteration. No other loop form is supported."""
+        cx = self.cx
+        inv = cx.ghost.get("loop_invariant")
+        if inv is None or not (isinstance(st.test, ast.Constant) and st.test.value is True) or st.orelse:
+            raise Unsupported("while loop (only `while True` generator loops with a contract invariant are supported)")
+        for label, f in inv(cx, env, 0):
+            cx.oblige(f"loop invariant holds on entry: {label}", f, kind="invariant")
+        assigned = set()
+        for n in ast.walk(ast.Module(body=st.body, type_ignores=[])):
+            if isinstance(n, (ast.Assign, ast.AugAssign, ast.AnnAssign)):
+                for t in n.targets if isinstance(n, ast.Assign) else [n.target]:
+                    for m in ast.walk(t):
+                        if isinstance(m, ast.Name):
+                            assigned.add(m.id)
+                        elif isinstance(m, (ast.Attribute, ast.Subscript)):
+                            raise Unsupported("while loop body assigns to an attribute or element")
+            elif isinstance(n, (ast.Break, ast.Return, ast.While, ast.For)):
+                raise Unsupported("control flow inside a while loop body")
+        k = z3.Int("iteration_k")
+        cx.assume(k >= 0)
+        for name in sorted(assigned):
+            old = env.get(name)
+            kind = V.kind_of(old) if old is not None else "int"
+            if kind not in ("int", "real", "bool"):
+                raise Unsupported(f"loop variable {name} is not a scalar")
+            env[name] = {"int": z3.Int, "real": z3.Real, "bool": z3.Bool}[kind](f"{name}@k")
+        for _label, f in inv(cx, env, k):
+            cx.assume_item(f)
+        cx.ghost["yields"] = []
+        self.exec_block(st.body, env, mod)
+        for label, f in inv(cx, env, k + 1):
+            cx.oblige(f"loop invariant preserved by the body: {label}", f, kind="invariant")
+        raise ReturnSignal(GeneratorRun(k, cx.ghost.pop("yields")))
 
     def do_raise(self, st, env, mod):
         exc = st.exc
@@ -823,7 +881,18 @@ class Interp:
         return d
 
     def e_JoinedStr(self, node, env, mod):
-        return "<fstring>"
+        if not self.cx.ghost.get("structured_fstrings"):
+            return "<fstring>"
+        from .strings import build_fstring
+
+        return build_fstring(self, node, env, mod)
+
+    def e_Yield(self, node, env, mod):
+        # only inside a `while True` loop verified against a loop invariant (exec_while)
+        if "yields" not in self.cx.ghost:
+            raise Unsupported("yield outside a loop with an invariant")
+        self.cx.ghost["yields"].append(self.eval(node.value, env, mod) if node.value is not None else None)
+        return None
 
     def e_Lambda(self, node, env, mod):
         return Closure(node, dict(env), mod)
@@ -858,6 +927,8 @@ class Interp:
         raise Unsupported("unary operator")
 
     def binop(self, op, a, b):
+        if isinstance(a, ModelObject) and hasattr(a, "pv_binop"):
+            return a.pv_binop(self.cx, op, b)
         if isinstance(a, Arr) or isinstance(b, Arr):
             return self.npm.elementwise(self.cx, op, a, b)
         if op == "+" and isinstance(a, (list, tuple, str)) and isinstance(b, type(a)):
@@ -1081,6 +1152,29 @@ class Interp:
         m, cn, node = r
         return BoundMethod(obj, PyFunc(f"{m.dotted}.{cn}.{node.name}", m, cn, node))
 
+    def class_assigns_attr(self, cls, name, _depth=0):
+        if not cls or _depth > 5:
+            return False
+        dotted, _, cname = cls.rpartition(".")
+        if not self.repo.has_module(dotted):
+            return False
+        mod = self.repo.module(dotted)
+        rec = mod.classes.get(cname)
+        if not rec:
+            return False
+        for n in ast.walk(rec["node"]):
+            if isinstance(n, ast.Attribute) and n.attr == name and isinstance(n.ctx, ast.Store) and isinstance(n.value, ast.Name) and n.value.id == "self":
+                return True
+        for b in rec["bases"]:
+            g = mod.globals.get(b.split(".")[-1])
+            if g and g[0] == "class":
+                if self.class_assigns_attr(f"{dotted}.{g[1]}", name, _depth + 1):
+                    return True
+            elif g and g[0] == "import":
+                if self.class_assigns_attr(g[1], name, _depth + 1):
+                    return True
+        return False
+
     def get_attr(self, obj, name):
         if isinstance(obj, Obj):
             if name in obj.attrs:
@@ -1097,11 +1191,17 @@ class Interp:
             ga = self.find_method(obj, "__getattr__")
             if ga is not None:
                 return self.call_value(ga, [name], {})
+            if self.class_assigns_attr(obj.cls, name):
+                # the real object would carry this attribute (some method of its class assigns it) but the contract's
+                # pre-state does not describe it: the function reads state outside the contract -> undecided
+                raise Unsupported(f"attribute {name!r} of {obj.cls} is assigned by the class but not described by the contract's pre-state")
             raise PyRaise("AttributeError", (name,))
         if isinstance(obj, ModelObject):
             return obj.pv_getattr(self.cx, name)
         if isinstance(obj, ModuleRef):
             full = f"{obj.dotted}.{name}"
+            if isinstance(self.cx.externals.get(full), ModelObject):
+                return self.cx.externals[full]  # an external OBJECT under an assumed contract (e.g. sys.modules)
             if self.repo.has_module(obj.dotted):
                 return self.module_lookup(self.repo.module(obj.dotted), name)
             return self.npm.module_attr(self, full)
@@ -1114,7 +1214,7 @@ class Interp:
                 return PyFunc(f"{m.dotted}.{cn}.{node.name}", m, cn, node)
             raise PyRaise("AttributeError", (name,))
         if isinstance(obj, dict):
-            if name in ("get", "items", "keys", "values", "pop", "copy", "update"):
+            if name in ("get", "items", "keys", "values", "pop", "copy", "update", "setdefault"):
                 return Builtin("dict." + name, _dict_method(obj, name))
         if isinstance(obj, list):
             if name in ("append", "extend", "index", "sort", "copy"):
@@ -1245,7 +1345,12 @@ class Interp:
             cx.called_specs.add(f.qual)
             return cx.specs[f.qual](self, args, kwargs)
         if cx.inline_ok is not None and f.qual not in cx.inline_ok:
-            raise Unsupported(f"call of {f.qual}: no contract and not in the inline list")
+            if f.qual in KNOWN_CONTRACTS:
+                # a function that HAS a contract must be called through it (modularity), not silently inlined
+                raise Unsupported(f"call of {f.qual}: it has a contract but the unit lists it neither as callee nor as inlined")
+            note = f"{f.qual}: no contract exists for this repository function; its body is inlined into the caller's VC"
+            if note not in cx.notes:
+                cx.notes.append(note)
         cx.inlined.add(f.qual)
         return self.run_function(f, args, kwargs)
 
@@ -1290,6 +1395,12 @@ class Interp:
         return env
 
     def run_function(self, f: PyFunc, args, kwargs):
+        # decorators the extraction may drop (DESIGN.md section 3); any other decorator changes what a call does
+        # (caching, properties, context managers ...) and is not modelled
+        for d in f.node.decorator_list:
+            nm = ast.unparse(d.func if isinstance(d, ast.Call) else d)
+            if nm not in _DROPPED_DECORATORS:
+                raise Unsupported(f"decorator @{ast.unparse(d)} on {f.qual} is not modelled")
         env = self.bind_args(f, args, kwargs)
         saved = self.cx.loc
         try:
@@ -1299,6 +1410,12 @@ class Interp:
         finally:
             self.cx.loc = saved
         return None
+
+
+KNOWN_CONTRACTS: set = set()  # qualified names of repository functions some Spec is written for (filled by pyvc.check)
+
+
+_DROPPED_DECORATORS = {"numba.njit", "njit", "numba.jit", "jit", "staticmethod", "abstractmethod", "abc.abstractmethod"}
 
 
 class SymRange:
@@ -1351,7 +1468,38 @@ def _dict_method(d, name):
     def update(interp, other=(), **kw):
         d.update(other, **kw)
 
+    def setdefault(interp, key, default=None):
+        return d.setdefault(key, default)
+
     return locals()[name]
+
+
+def _snapshot(v):
+    """structural copy of a module-level container (leaves shared)"""
+    if isinstance(v, dict):
+        return {k: _snapshot(x) for k, x in v.items()}
+    if isinstance(v, list):
+        return [_snapshot(x) for x in v]
+    if isinstance(v, set):
+        return set(v)
+    if isinstance(v, tuple):
+        return tuple(_snapshot(x) for x in v)
+    return v
+
+
+def same_structure(x, y):
+    if type(x) is not type(y):
+        return False
+    if isinstance(x, dict):
+        return list(x.keys()) == list(y.keys()) and all(same_structure(x[k], y[k]) for k in x)
+    if isinstance(x, (list, tuple)):
+        return len(x) == len(y) and all(same_structure(p, q) for p, q in zip(x, y))
+    if V.is_z3(x):
+        return x.eq(y)
+    try:
+        return bool(x == y)
+    except Exception:  # noqa: BLE001
+        return x is y
 
 
 def _list_method(interp_, lst, name):
@@ -1393,6 +1541,15 @@ def _set_method(s, name):
 
 def _str_method(s, name):
     def fn(interp, *a, **k):
+        if name == "join" and len(a) == 1 and isinstance(a[0], (list, tuple)) and not all(isinstance(x, str) for x in a[0]):
+            from .strings import make  # structured strings: literal and symbolic parts
+
+            parts = []
+            for i, x in enumerate(a[0]):
+                if i and s:
+                    parts.append(s)
+                parts.append(x)
+            return make(parts)
         return getattr(s, name)(*a, **k)
 
     return fn
